@@ -272,6 +272,12 @@ fn ser_code<T>(r: std::thread::Result<ser::Result<T>>, got: &[u8], want: &[u8], 
     }
 }
 
+/// erase the reference markers, but keep any report of a reference outside the buffer or misaligned
+pub fn erase_refs_checked(s: &str) -> String {
+    let e = erase_refs(s);
+    if s.contains("OUTSIDE") { format!("OUTSIDE!{}", e) } else if s.contains("MISALIGNED") { format!("MISALIGNED!{}", e) } else { e }
+}
+
 pub fn erase_refs(s: &str) -> String {
     let mut out = String::with_capacity(s.len());
     let mut skipping = false;
@@ -627,6 +633,15 @@ where
                     out.push_str(&format!("{} tags {}\n", cid, parts.join(" ")));
                 }
             }
+            "gold" => {
+                // a file written by the pinned build: read it with the current build, both modes
+                let b = crate::hexu::unhex(arg);
+                let f = full_obs::<D>(&b);
+                let placed = arena.place(0, &b);
+                let e = eps_obs::<D>(placed);
+                out.push_str(&format!("{} gold full={} eps={}\n", cid, code_of(&f, false), code_of(&e, true)));
+            }
+            "load" => {} // handled by loaders::load_case, called by the generated code
             "cross" => {} // handled by cross_case, called by the generated code after run_case
             _ => panic!("unknown op {}", op),
         }
